@@ -303,7 +303,17 @@ example : (⟨[ofString "/rw/0000BEEF.json"], some (ofString "/rw")⟩ : Cache).
   simp only [List.mem_singleton] at hp
   exact ⟨ofString "/rw", 0xBEEF, by decide, by rw [hp, storedName, hex08_lt _ (by decide)]; decide⟩
 
-example : cxLogToc_ok.1 = cxLogToc_ok.1 := rfl
+example : TocValid cxLogToc ∧ TocWF cxLogToc ∧ NoClassKey cxLogToc := cxLogToc_ok
+-- a table with a variable called `__class__`: covered by load_never_wrong / truncation_is_miss, excluded from load_eq_store
+example : TocWF [([103], [(kClass, Elem.log ⟨0, [103], kClass, [99], [112], 0⟩)])] ∧
+    ¬ NoClassKey [([103], [(kClass, Elem.log ⟨0, [103], kClass, [99], [112], 0⟩)])] := by
+  refine ⟨⟨by decide, ?_⟩, ?_⟩
+  · intro g hg; simp only [List.mem_singleton] at hg; subst hg; decide
+  · intro h; exact h.2 _ (List.mem_singleton.2 rfl) (by simp [keys])
+example : (0 : Nat) < (encodeText (printToc [])).length ∧ (encodeText (printToc [])).take 1 = [123] := by decide
+example : (⟨[], some (ofString "/rw")⟩ : Cache).rw ≠ some (ofString "/ro") ∧ 47 ∉ ofString "0000BEEF.json" := by decide
+example : findHit [ofString "/ro/0000BEEF.json", ofString "/rw/0000BEEF.json", ofString "/rw/0000BEE0.json"]
+    (ofString "0000BEEF.json") = some (ofString "/rw/0000BEEF.json") := by decide
 example : loads (ofString "{\"a\": [1, true]}") = .ok (.obj [(ofString "a", .arr [.int 1, .bool true])]) := by rfl
 example : loads (ofString "{\"a\": [1, tr") = .error .exc := by rfl
 set_option maxRecDepth 16384 in
